@@ -454,6 +454,22 @@ func (r *Runner) replayObligation(prop string, o *Obligation) (*ReplayRecord, st
 		return rec, path
 	}
 	fc := o.fc
+	if o.Kind == "bounded" {
+		rec.Test, rec.Command, rec.Output = o.BoundedTest, o.BoundedCmd, truncate(o.BoundedOut, 3000)
+		rec.TestPkg = repoModule + "/vflow"
+		if strings.Contains(o.BoundedOut, "VRF-RESULT VIOLATED") {
+			rec.Verdict = "confirmed"
+			for _, l := range strings.Split(o.BoundedOut, "\n") {
+				if strings.HasPrefix(l, "VRF-RESULT VIOLATED") {
+					rec.Reason = "bounded check on the real code: " + strings.TrimPrefix(l, "VRF-RESULT VIOLATED ")
+				}
+			}
+		} else {
+			rec.Verdict = "not-reproduced"
+			rec.Reason = "the bounded check did not run to a result"
+		}
+		return save()
+	}
 	if fc != nil && o.GroundTest != "" {
 		// ground obligation: the same fact is checked on the real package at run time
 		rec.Test = "package " + fc.pkg.Types.Name() + "\n\nimport (\n\t\"fmt\"\n\t\"testing\"\n)\n\nfunc TestVrfReplay(t *testing.T) {\n\t" + o.GroundTest + "\n}\n"
@@ -472,6 +488,42 @@ func (r *Runner) replayObligation(prop string, o *Obligation) (*ReplayRecord, st
 			rec.Verdict = "not-reproduced"
 			rec.Reason = "the run-time check of the same fact on the real package holds"
 		}
+		return save()
+	}
+	if fc != nil && fc.contract != nil && fc.contract.Opts["replaytest"] != "" {
+		// contract-supplied witness test: "<kind-prefix> <file under /verif/replaytests>" pairs
+		fs := strings.Fields(fc.contract.Opts["replaytest"])
+		for i := 0; i+1 < len(fs); i += 2 {
+			if !strings.HasPrefix(o.Kind, fs[i]) {
+				continue
+			}
+			src, err := os.ReadFile(filepath.Join("/verif/replaytests", fs[i+1]))
+			if err != nil {
+				continue
+			}
+			rec.Test = string(src)
+			rec.TestPkg = fc.pkg.PkgPath
+			out, cmdline := runOverlayTest(r.w.RepoDir, fc.pkg.PkgPath, rec.Test, "TestVrfReplay")
+			rec.Command = cmdline
+			rec.Output = truncate(out, 3000)
+			rec.Inputs = []string{"witness test " + fs[i+1] + " (hand-written for this contract; the solver's model does not determine message contents)"}
+			if strings.Contains(out, "VRF-RESULT VIOLATED") {
+				rec.Verdict = "confirmed"
+				for _, l := range strings.Split(out, "\n") {
+					if strings.HasPrefix(l, "VRF-RESULT VIOLATED") {
+						rec.Reason = strings.TrimPrefix(l, "VRF-RESULT VIOLATED ")
+					}
+				}
+			} else {
+				rec.Verdict = "not-reproduced"
+				rec.Reason = "the witness test passes on the real code"
+			}
+			return save()
+		}
+	}
+	if fc != nil && fc.contract != nil && fc.contract.Opts["noreplay"] != "" {
+		rec.Verdict = "not-replayable"
+		rec.Reason = fc.contract.Opts["noreplay"]
 		return save()
 	}
 	if fc != nil && o.RawQuery != "" {
